@@ -555,7 +555,7 @@ func (fc *FuncContract) mentions(txt string) bool {
 		return true
 	}
 	for _, l := range fc.Loops {
-		if has(l.Invariants) {
+		if has(l.Invariants) || has(l.Steps) {
 			return true
 		}
 	}
